@@ -329,7 +329,7 @@ struct acos_op {
 
 template <class T>
 struct atan_op {
-    static inline float
+    static inline T
     apply(T x)
     {
         return std::atan(x);
